@@ -747,7 +747,9 @@ type OptionType struct {
 func (self OptionType) Kind() TypeKind                { return OptionTypeKind }
 func (self OptionType) String() string                { return fmt.Sprintf("?%s", self.Inner) }
 func (self OptionType) Span() errors.Span             { return self.Range }
-func (self OptionType) SetSpan(span errors.Span) Type { return NewOptionType(self.Inner, span) }
+func (self OptionType) SetSpan(span errors.Span) Type {
+	return NewOptionType(self.Inner.SetSpan(span), span)
+}
 func (self OptionType) Fields(span errors.Span) map[string]Type {
 	return map[string]Type{
 		"is_some": NewFunctionType(
